@@ -206,6 +206,9 @@ def c15(prog, rep):
     from . import tree as T
     T.rule_a4(prog, rep, T.restructurers(prog)[0])
     T.rule_fixup_bypass(prog, rep)
+    O.rule_a7(prog, rep, C.C11_UNITS)
+    O.rule_a8(prog, rep, C.C11_UNITS)
+    O.rule_m3(prog, rep, om, C.C11_UNITS)
     rep.explanation = (
         'Fault-path discipline in the nine container units (and qinternal.h macros as expanded there), all CFG paths with '
         'path-sensitive value tracking: A1 every allocation result (malloc/calloc/realloc/strdup/qmemdup/qstrdupf and repo '
@@ -232,6 +235,8 @@ def c12(prog, rep):
     E.rule_r2_fill(prog, rep, E.ACCESSOR_UNITS)
     E.rule_r2_bin(prog, rep, E.ACCESSOR_UNITS)
     E.rule_r2_src(prog, rep, E.ACCESSOR_UNITS)
+    from . import strrules as SR
+    SR.rule_snprintf_fit(prog, rep, E.ACCESSOR_UNITS)        # putstrf / addstrf format through the shared macro
     from . import hasharr as HA
     HA.rule_i7(prog, rep)
     rep.explanation = (
@@ -420,6 +425,8 @@ def c20(prog, rep):
     from . import configrules as CR
     CR.rule_c20(prog, rep)
     CR.rule_scan_abandon(prog, rep)
+    CR.rule_argflag_shift(prog, rep)
+    CR.rule_lineno_reset(prog, rep)
     rep.explanation = (
         'Narrow structural clauses of the Apache-style parser (qaconf.c): B1 the literal set the boolean classifier compares against '
         '(case-insensitively) contains all eight documented spellings and maps the two polarities and "not a boolean" to three '
